@@ -35,7 +35,10 @@ func (v *VMValue) ToJSONRaw(save map[*VMValue]bool) ([]byte, error) {
 		x.TypeId = v.TypeId
 		x.Value.Expr = cd.Expr
 		if cd.Attrs != nil {
-			attrJson, err := cd.Attrs.ToJSON()
+			if save == nil {
+				save = map[*VMValue]bool{}
+			}
+			attrJson, err := cd.Attrs.toJSONRaw(save)
 			if err != nil {
 				return nil, err
 			}
@@ -77,7 +80,7 @@ func (v *VMValue) ToJSONRaw(save map[*VMValue]bool) ([]byte, error) {
 		save[v] = true
 		cd := v.MustReadDictData()
 
-		dictJson, err := cd.Dict.ToJSON()
+		dictJson, err := cd.Dict.toJSONRaw(save)
 		if err != nil {
 			return nil, err
 		}
